@@ -113,7 +113,7 @@ Definition dec_group_status1 (r : list N) : option group_status :=
     me <- gmethod_of (N.shiftr (N.land b2 0x80) 7) ;;
     ba <- battery_of (N.shiftr (N.land b3 0x80) 7) ;;
     let et := N.land b56 0xFFE0 in
-    let temp := if negb sensor || (et =? 0xFF00) then None else Some (dec_temp et) in
+    let temp := if negb sensor || (N.land b56 0xFF00 =? 0xFF00) then None else Some (dec_temp et) in
     let sp := if sensor then Some (N.land b3 0x3F) else None in
     Some (mkGS (N.land b1 0x3F) pw me (bit b56 4) (bit b3 6) sensor ba temp (N.land b2 0x7F) sp)
   | _ => None
